@@ -9,9 +9,9 @@ fit in the receive buffer) is the outer `none` — the error branch is explicit,
 The operator is an arbitrary `op : α → α → α`; the theorems in Props.lean assume associativity (+ commutativity
 where MPI allows implementations to reorder).
 
-Part 2 (section Sched): round-based message-passing *schedules* of four algorithms, following
+Part 2 (section Sched): round-based message-passing *schedules* of seven algorithms, following
   /repo/src/smpi/colls/bcast/bcast-binomial-tree.cpp, allreduce/allreduce-rdb.cpp, allgather/allgather-ring.cpp,
-  alltoall/alltoall-pair.cpp
+  alltoall/alltoall-pair.cpp, reduce/reduce-flat-tree.cpp, reduce/reduce-binomial.cpp, allreduce/allreduce-lr.cpp
 branch by branch (quoted below).  Props.lean proves them equal to the spec for every communicator size.
 The other algorithms of /repo/src/smpi/colls are NOT modelled: they are covered by the correspondence only.
 -/
@@ -369,6 +369,54 @@ def binVal (op : α → α → α) (comm : Bool) (g : Nat → α) (np : Nat) : N
 def reduceBinomial (op : α → α → α) (comm : Bool) (x : Nat → α) (np root : Nat) : α :=
   let lroot := if comm then root else 0
   binVal op comm (fun d => x ((d + lroot) % np)) np (log2up np) 0
+
+/-- ### allreduce logical ring (allreduce-lr.cpp): ring reduce-scatter, then ring allgather
+```
+  if (rcount < size) { allreduce__redbcast(...); return; }            // NOT modelled
+  if (rcount % size != 0) { remainder … }  count = rcount / size;      // remainder -> colls::allreduce on the tail: NOT modelled
+  // copy partial data
+  send_offset = recv_offset = ((rank - 1 + size) % size) * count * extent;
+  sendrecv(sbuf + send_offset -> rbuf + recv_offset)                   // to itself
+  // reduce-scatter
+  for (i = 0; i < size - 1; i++) {
+    send_offset = ((rank - 1 - i + 2 * size) % size) * count * extent;
+    recv_offset = ((rank - 2 - i + 2 * size) % size) * count * extent;
+    sendrecv(rbuf + send_offset -> (rank + 1) % size, tag + i;  rbuf + recv_offset <- (rank + size - 1) % size, tag + i);
+    op->apply(sbuf + recv_offset, rbuf + recv_offset); }               // rbuf[blk] = sbuf[blk] op rbuf[blk]
+  // all-gather
+  for (i = 0; i < size - 1; i++) {
+    send_offset = ((rank - i + 2 * size) % size) * count * extent;
+    recv_offset = ((rank - 1 - i + 2 * size) % size) * count * extent;
+    sendrecv(rbuf + send_offset -> (rank + 1) % size, tag + i;  rbuf + recv_offset <- (rank + size - 1) % size, tag + i); }
+```
+Model for `rcount = size * count` (`count ≥ 1`): the buffers are `size` blocks; `x r b` = block `b` of the send buffer of
+rank `r`; the state gives, per rank and block, the content of `rbuf` (`none` = never written).  In round `i` rank `r`
+receives what `p = (r + size - 1) % size` sends in ITS round `i` (tags `tag + i`, one source: the matching is forced; the
+model checks that `p`'s destination `(p + 1) % size` is `r`). -/
+abbrev LrState (β : Type) := Nat → Nat → Option β
+
+def lrInit {β : Type} (x : Nat → Nat → β) (np : Nat) : LrState β :=
+  fun r b => if b = (r + np - 1) % np then some (x r b) else none
+
+def lrRsRound {β : Type} (op : β → β → β) (x : Nat → Nat → β) (np i : Nat) (st : LrState β) : LrState β :=
+  fun r b =>
+    let p := (r + np - 1) % np
+    if b = (r + 2 * np - (2 + i)) % np ∧ (p + 1) % np = r then
+      (st p ((p + 2 * np - (1 + i)) % np)).map fun v => op (x r b) v
+    else st r b
+
+def lrAgRound {β : Type} (np i : Nat) (st : LrState β) : LrState β :=
+  fun r b =>
+    let p := (r + np - 1) % np
+    if b = (r + 2 * np - (1 + i)) % np ∧ (p + 1) % np = r then st p ((p + 2 * np - i) % np) else st r b
+
+/-- rounds `0 … k-1` -/
+def lrIter {σ : Type} (f : Nat → σ → σ) : Nat → σ → σ
+  | 0, s => s
+  | k+1, s => f k (lrIter f k s)
+
+def allreduceLr {β : Type} (op : β → β → β) (x : Nat → Nat → β) (np : Nat) : LrState β :=
+  lrIter (lrAgRound np) (np - 1) (lrIter (lrRsRound op x np) (np - 1) (lrInit x np))
 
 end Sched
 end SgVerif.C29
